@@ -21,6 +21,8 @@ fn main() {
             };
             let seed: u64 = std::env::var("VERIF_SEED").ok().and_then(|s| s.trim().parse::<i64>().ok()).map(|x| x as u64).unwrap_or(1);
             let code = props::run(&id, tier, seed);
+            // the main thread's scratch directory (replays of recorded findings run here)
+            gv::drive::scratch_cleanup_thread();
             std::process::exit(code);
         }
         "replay" => {
@@ -32,6 +34,7 @@ fn main() {
                 CaseResult::Fail(f) => {
                     println!("VIOLATION property={} replay={}", id, path);
                     println!("  {}", f.msg);
+                    gv::drive::scratch_cleanup_thread();
                     std::process::exit(1);
                 }
                 CaseResult::Fails(fs) => {
@@ -39,14 +42,17 @@ fn main() {
                     for f in fs {
                         println!("  {}", f.msg);
                     }
+                    gv::drive::scratch_cleanup_thread();
                     std::process::exit(1);
                 }
                 CaseResult::Pass(_) => {
                     println!("replay {}: property holds on this case", path);
+                    gv::drive::scratch_cleanup_thread();
                     std::process::exit(0);
                 }
                 CaseResult::Discard(w) => {
                     println!("replay {}: case discarded ({})", path, w);
+                    gv::drive::scratch_cleanup_thread();
                     std::process::exit(0);
                 }
             }
